@@ -189,7 +189,7 @@ func c8render(steps []c8step, sp c8spell) string {
 
 // ---- hostile key values ------------------------------------------------------------------------
 
-var c8fragments = []string{"a/b", "x,y", "k=v", "100%", "a+b", "sp ace", "q?x", "h#1", "ü", "日本", "%2F", "../", "..", "a:b",
+var c8fragments = []string{"a/b", "x,y", "k=v", "100%", "a+b", "sp ace", "a b", " x", "y ", "1 2", "q?x", "h#1", "ü", "日本", "%2F", "../", "..", "a:b",
 	"+", "%", "/", ",", "=", "?", "#", " ", "~t", "-_.", "Zz9", "\x01", "\xff\xfe", "&amp;", "'q'", "\"", "\\"}
 
 func c8hostile(r *gen.Rng) string {
@@ -447,13 +447,94 @@ func (t *c8tree) run(c c8call) (c8result, error) {
 
 var c8keyTypes = []string{"string", "string", "string", "int32", "uint8", "int64", "uint32", "boolean", "enumeration { enum a; enum b; enum c; }"}
 
+// c8listYang writes a list-heavy schema: lists within lists, compound keys, choices (also nested)
+// whose cases hold lists and containers
+func c8listYang(r *gen.Rng) string {
+	next := 0
+	id := func(p string) string { next++; return fmt.Sprintf("%s%d", p, next) }
+	var b strings.Builder
+	leafTypes := []string{"string", "int32", "boolean", "uint16", "int64"}
+	var kids func(ind string, depth int, inCase bool)
+	leaf := func(ind string) {
+		t := gen.Pick(r, leafTypes)
+		fmt.Fprintf(&b, "%sleaf %s { type %s; }\n", ind, id("l"), t)
+	}
+	kids = func(ind string, depth int, inCase bool) {
+		n := 2 + r.Intn(3)
+		if inCase {
+			n = 1 + r.Intn(2)
+		}
+		for i := 0; i < n; i++ {
+			roll := r.Intn(10)
+			switch {
+			case roll < 3 || depth >= 3:
+				leaf(ind)
+			case roll < 5:
+				fmt.Fprintf(&b, "%scontainer %s {\n", ind, id("c"))
+				kids(ind+"  ", depth+1, false)
+				fmt.Fprintf(&b, "%s}\n", ind)
+			case roll < 9:
+				name := id("q")
+				nk := 1
+				if r.Chance(2, 5) {
+					nk = 2
+				}
+				var keys []string
+				var decl strings.Builder
+				for k := 0; k < nk; k++ {
+					kn := id("k")
+					keys = append(keys, kn)
+					t := gen.Pick(r, c8keyTypes)
+					semi := ";"
+					if strings.HasSuffix(t, "}") {
+						semi = ""
+					}
+					fmt.Fprintf(&decl, "%s  leaf %s { type %s%s }\n", ind, kn, t, semi)
+				}
+				fmt.Fprintf(&b, "%slist %s {\n%s  key \"%s\";\n%s", ind, name, ind, strings.Join(keys, " "), decl.String())
+				kids(ind+"  ", depth+1, false)
+				fmt.Fprintf(&b, "%s}\n", ind)
+			default:
+				fmt.Fprintf(&b, "%schoice %s {\n", ind, id("h"))
+				for c := 0; c < 2; c++ {
+					fmt.Fprintf(&b, "%s  case %s {\n", ind, id("s"))
+					if r.Chance(1, 3) && depth < 2 {
+						fmt.Fprintf(&b, "%s    choice %s {\n%s      case %s {\n", ind, id("h"), ind, id("s"))
+						kids(ind+"        ", depth+1, true)
+						fmt.Fprintf(&b, "%s      }\n%s    }\n", ind, ind)
+					} else {
+						kids(ind+"    ", depth+1, true)
+					}
+					fmt.Fprintf(&b, "%s  }\n", ind)
+				}
+				fmt.Fprintf(&b, "%s}\n", ind)
+			}
+		}
+	}
+	b.WriteString("module m {\n  namespace \"urn:m\";\n  prefix m;\n  revision 2020-01-01;\n")
+	kids("  ", 0, false)
+	b.WriteString("}\n")
+	return b.String()
+}
+
 func c8newTree(r *gen.Rng, n int) (*c8tree, error) {
 	opts := tree.GenOpts{MaxDepth: 3, MaxKids: 4, Lists: true, Choices: r.Chance(1, 2), Defaults: true, LeafLists: true,
 		ConfigMix: r.Chance(1, 2), KeyTypes: c8keyTypes}
 	if r.Chance(1, 3) {
 		opts.MaxDepth = 4
 	}
-	yang, m, root, err := tree.GenSchema(r.Fork(1), opts)
+	var yang string
+	var m *meta.Module
+	var root *tree.SNode
+	var err error
+	if n%3 != 2 {
+		yang = c8listYang(r.Fork(1))
+		if m, err = parser.LoadModuleFromString(nil, yang); err == nil {
+			root = tree.Root(m)
+		}
+	} else {
+		yang, m, root, err = tree.GenSchema(r.Fork(1), opts)
+	}
 	if err != nil {
 		return nil, fmt.Errorf("generated schema does not load: %v\n%s", err, yang)
 	}
@@ -468,7 +549,7 @@ func c8newTree(r *gen.Rng, n int) (*c8tree, error) {
 		root = tree.Root(m)
 	}
 	dr := r.Fork(2)
-	data := tree.GenData(dr, root, 80, 3)
+	data := tree.GenData(dr, root, 85, 3)
 	c8hostileKeys(dr, root, data)
 	t := &c8tree{yang: yang, m: m, root: root, data: data, pfx: pfx}
 	t.rootNode = &c8node{kind: "root", s: root, cont: data}
@@ -560,19 +641,17 @@ func (t *c8tree) calls(r *gen.Rng, budget int) []c8call {
 		return strings.Repeat("../", ups) + c8render(n.steps[p:], sp)
 	}
 	all := append([]*c8node{t.rootNode}, t.nodes...)
-	// sample when the tree is large; always keep list entries and what sits below them
+	// sample when the tree is large; list entries are twice as likely to be kept
 	per := 100
-	if len(all)*4 > budget {
-		per = 100 * budget / (len(all) * 4)
+	if len(all) > budget {
+		per = 100 * budget / len(all)
 	}
 	for _, n := range all {
-		deep := false
-		for _, st := range n.steps {
-			if st.key != nil {
-				deep = true
-			}
+		keep := per
+		if n.kind == "row" {
+			keep = 2 * per
 		}
-		if !deep && !r.Chance(per, 100) && len(out) > 0 {
+		if !r.Chance(keep, 100) && len(out) > 0 {
 			continue
 		}
 		// 1. from the root, canonical spelling
@@ -588,6 +667,25 @@ func (t *c8tree) calls(r *gen.Rng, budget int) []c8call {
 		}
 		out = append(out, c8call{start: t.rootNode, path: c8render(n.steps, sp), intent: present(n),
 			idesc: fmt.Sprintf("present node, spelling esc=%d trailing=%v qualified=%v", sp.esc, sp.trailing, sp.qual != nil), stream: "root-variant"})
+		// 2b. a list entry: every way of escaping its keys
+		if n.kind == "row" {
+			last := n.steps[len(n.steps)-1]
+			hasSpace, isStr := false, false
+			for _, v := range last.key {
+				if v.Format() == val.FmtString {
+					isStr = true
+					hasSpace = hasSpace || strings.Contains(v.String(), " ")
+				}
+			}
+			for mode := escLower; isStr && mode <= escPlus; mode++ {
+				if mode == escPlus && !hasSpace {
+					continue
+				}
+				sp := c8spell{esc: mode, trailing: r.Chance(1, 4)}
+				out = append(out, c8call{start: t.rootNode, path: c8render(n.steps, sp), intent: present(n),
+					idesc: fmt.Sprintf("list entry, keys escaped in mode %d", mode), stream: "root-escapes"})
+			}
+		}
 		// 3. from an ancestor
 		if len(n.steps) > 1 && r.Chance(2, 3) {
 			cut := 1 + r.Intn(len(n.steps)-1)
@@ -766,8 +864,8 @@ func C08(ctx *core.Ctx) error {
 	ctx.Rule = "table = one generated schema (containers, lists in lists, 1-2 keys of string/int/bool/enum types, choices incl. nested, config false sub-trees, prefix equal to or different from the module name) and data tree whose string keys are built from fragments containing / , = % + space ? # : .. non-ASCII and invalid UTF-8; finds = every node of the tree (sampled when large; list entries always) x start selection (root, an ancestor, another node via ../) x spelling (canonical, lower-case/over/minimal escaping, + for space, module-qualified segments, trailing slash, query parameters) plus absent containers/lists/keys, unknown names and malformed paths; observed: nil/NotFound/other error/panic, sel.Path as schema positions, Key(), Path.String(), content exported through a capturing reference store, re-find of the rendered path, write callbacks; non-trivial = tables with at least one list entry"
 	ctx.ShardMax = 110000 // several shards classify in parallel
 	r := gen.New(ctx.Seed)
-	trees := ctx.Scale(9, 200)
-	budget := ctx.Scale(48, 120)
+	trees := ctx.Scale(6, 150)
+	budget := ctx.Scale(24, 80)
 	for n := 0; n < trees; n++ {
 		tr := r.Fork(uint64(n))
 		t, err := c8newTree(tr, n)
